@@ -209,25 +209,26 @@ def readPalette : Layout → Bytes → R (Option Pal)
 def readSprite : Layout → Bytes → R (Option Sprite)
   | .d4 => d4ReadSprite | .d5 => d5ReadSprite
 
-/-- the `while indx < len(channelData)` loop -/
-def spriteLoop (lay : Layout) (buf : Bytes) (indx : Nat) : R (List (Option Sprite)) :=
-  if _h : indx < buf.length then
-    match readSprite lay (slice buf indx (indx + lay.frameSize)) with
+/-- the `while indx < len(channelData)` loop; `rest` is `channelData[indx:]`, so that
+    `frameData = channelData[indx:indx+frame_size]` is `rest.take frame_size` and `indx += frame_size` drops it -/
+def spriteLoop (lay : Layout) (rest : Bytes) : R (List (Option Sprite)) :=
+  if _h : 0 < rest.length then
+    match readSprite lay (rest.take lay.frameSize) with
     | .error e => .error e
     | .ok s =>
-      match spriteLoop lay buf (indx + lay.frameSize) with
+      match spriteLoop lay (rest.drop lay.frameSize) with
       | .error e => .error e
       | .ok ss => .ok (s :: ss)
   else .ok []
-termination_by buf.length - indx
-decreasing_by have := lay.frameSize_pos; omega
+termination_by rest.length
+decreasing_by have := lay.frameSize_pos; simp only [List.length_drop]; omega
 
 /-- VwscChannelParser.parse_vwsc_channels -/
 def parseChannels (lay : Layout) (buf : Bytes) : R Frame := do
   let fs := lay.frameSize
   let main ← readMain lay (slice buf 0 fs)
   let pal ← readPalette lay (slice buf fs (fs + fs))
-  let score ← spriteLoop lay buf (fs + fs)
+  let score ← spriteLoop lay (buf.drop (fs + fs))
   pure ⟨main, pal, score⟩
 
 /-! ### canonical observable (the Python dicts through `json.dumps(sort_keys=True)`) -/
